@@ -19,6 +19,11 @@ func (obfuscator Obfuscator) ObfuscateString(raw string) string {
 	return obfuscator.Hasher.HashBytes([]byte(raw))
 }
 
+const (
+	requestBodyPathPrefix  = "$.request.body"
+	responseBodyPathPrefix = "$.response.body"
+)
+
 var (
 	parserPool fastjson.ParserPool
 	arenaPool  fastjson.ArenaPool
@@ -169,7 +174,10 @@ func isCursorInExcludedPath(cursor string, excludedPaths []string) bool {
 		return false
 	}
 	for _, path := range excludedPaths {
-		if strings.HasSuffix(path, cursor) {
+		// a JSONPath exclusion addresses the body from the transaction root:
+		// it denotes the cursor only when nothing but the body prefix precedes it
+		if strings.TrimPrefix(path, requestBodyPathPrefix) == cursor ||
+			strings.TrimPrefix(path, responseBodyPathPrefix) == cursor {
 			return true
 		}
 	}
